@@ -102,13 +102,14 @@ def img_env(widx, variants=('asan',), configs=None, recipes=None):
     env['_cleanup'] = lambda: shutil.rmtree(d, ignore_errors=True)
     return env
 
-def template(env, cfg_name, recipe_key=0):
+def template(env, cfg_name, recipe_key=0, recipes=None):
     """path of a populated, consistent image for (config, recipe); built once per worker. None if it cannot be built."""
     key = (cfg_name, recipe_key)
     if key in env['cache']: return env['cache'][key]
     cfg = fsgen.config_by_name(cfg_name)
     img = os.path.join(env['dir'], 'tpl-%s-%d.img' % (cfg_name, recipe_key))
-    recipe = RECIPES[recipe_key % len(RECIPES)]
+    recipes = recipes or RECIPES
+    recipe = recipes[recipe_key % len(recipes)]
     ok, log = fsgen.build_image(env['plain'], img, cfg, recipe, env['blobs'], random.Random(recipe_key * 31 + 7))
     if not ok:
         env['cache'][key] = None; env.setdefault('build_failures', []).append((cfg_name, recipe_key, log[:300]))
